@@ -24,7 +24,11 @@ RULE = ("all built-in collections + metadata-declared ones (own header/library; 
 ASSUME = ["requests are observed at the model store: (idiom, container type, bank) hex-logged", "model headers/libraries are generated from the same collection specifications the translator holds"]
 
 IDIOM = {"atlas": "retrieve", "cms_aod": "getByLabel", "cms_miniaod": "getByToken"}
-BANK_ALPHABET = ["AntiKt4EMTopoJets", "A", "b", "with blank", "Ünï", "q\"uote", "back\\slash", "x_1", "a.b", "slimmedMuons", "-", "0", "CamelCase::ns"]
+BANK_ALPHABET = ["AntiKt4EMTopoJets", "A", "b", "with blank", "Ünï", "q\"uote", "back\\slash", "x_1", "a.b", "slimmedMuons", "-", "0", "CamelCase::ns",
+                 # keys that look like something derived from another key (auxiliary stores, decorations, systematics), patterns, padding: a bank is
+                 # whatever string the query names
+                 "EventInfoAux.", "AntiKt4EMTopoJetsAux.", "JetsAuxDyn.pt", "Muons.", ".hidden", "Jets_NOSYS", "Jets%SYS%", "Tracks/forward", "two  blanks", " lead", "trail ", "a*", "[0]",
+                 "slimmedMuons::PAT", "slimmedMuons:instance:PAT"]
 
 
 def extended_schema(backend: str) -> Dict[str, Any]:
@@ -141,6 +145,15 @@ def gen_case(ctx: Ctx, backend: str, s, i: int) -> Optional[diff.Case]:
     for n in {n for n, _ in used}:
         if not s["collections"][n].get("builtin", False):
             md.append(declaration(backend, n, s["collections"][n]))
+    if used and R.random() < 0.25:
+        # an inject_code block of the same query that names a used collection's own header (as a header include, a source include,
+        # or both): the collection still gets what it needs on every backend
+        hdrs = list(s["collections"][used[0][0]]["headers"])
+        blk = {"metadata_type": "inject_code", "name": f"c06blk{i}"}
+        for fld in R.choice([["header_includes"], ["body_includes"], ["header_includes", "body_includes"]]):
+            blk[fld] = hdrs
+        md.append(blk)
+        form = form + "+own_header_in_inject_block"
     return diff.Case(backend, q, evs, md, schema=s, tag={"form": form, "used": used, "absent": absent})
 
 
